@@ -491,6 +491,41 @@ func callsIn(path, fn, defName string) {
 	fmt.Printf("def %s : List String := [%s]\n", defName, strings.Join(q, ", "))
 }
 
+// package-level variables of a package main directory (excluding the New_* constructor singletons
+// that fc emits for payload-less union cases, which are immutable values)
+func pkgGlobals(dir, defName string) {
+	ms, _ := filepath.Glob(filepath.Join(dir, "*.go"))
+	sort.Strings(ms)
+	var names []string
+	for _, path := range ms {
+		if strings.HasSuffix(path, "_test.go") {
+			continue
+		}
+		_, f := parseFile(path)
+		for _, d := range f.Decls {
+			gd, ok := d.(*ast.GenDecl)
+			if !ok || gd.Tok != token.VAR {
+				continue
+			}
+			for _, sp := range gd.Specs {
+				if vs, ok := sp.(*ast.ValueSpec); ok {
+					for _, n := range vs.Names {
+						if !strings.HasPrefix(n.Name, "New_") {
+							names = append(names, filepath.Base(path)+":"+n.Name)
+						}
+					}
+				}
+			}
+		}
+	}
+	q := make([]string, len(names))
+	for i, n := range names {
+		q[i] = leanStr(n)
+	}
+	fmt.Printf("/-- package-level variables of %s (file:name) -/\n", dir)
+	fmt.Printf("def %s : List String := [%s]\n", defName, strings.Join(q, ", "))
+}
+
 var identRe = regexp.MustCompile(`[A-Za-z_][A-Za-z0-9_]*`)
 
 func main() {
@@ -517,6 +552,10 @@ func main() {
 		fmt.Println("namespace Folang.Generated")
 		enumSites(repo)
 		callsIn(repo+"/fc/gen_parse_state.go", "scLookupRecFacCur", "lookupRecFacCalls")
+		fmt.Println("end Folang.Generated")
+	case "globals":
+		fmt.Println("namespace Folang.Generated")
+		pkgGlobals(repo+"/fc", "fcGlobals")
 		fmt.Println("end Folang.Generated")
 	case "lib":
 		fmt.Println("namespace Folang.Generated")
